@@ -335,6 +335,21 @@ def run(tier, build, replay=None):
         inv = invalid_jobs(tier, mm) + env_jobs(tier, mm)
         jobs = jobs + inv
         results = results + l6.run_jobs(inv)
+        # runs into an output directory that already holds symbolic links named like the reports and pointing outside it: the names
+        # are those a successful run of the same job has just written
+        link_jobs = []
+        seen_c = set()
+        for j, r in zip(jobs, results):
+            names = sorted(n for n, v in (r.get("files") or {}).items() if n.endswith(".ods") and not (v or {}).get("stale"))
+            if j.get("kind") == "matrix" and r.get("rc") == 0 and names and j["country"] not in seen_c and not j.get("pre") \
+                    and j["opts"].get("outdir") != "default":
+                seen_c.add(j["country"])
+                if tier == "quick" and len(seen_c) > 2:
+                    continue
+                link_jobs.append(dict(j, kind="pre-existing-symlinks", audit=True,
+                                      pre_links={n: ("existing" if k % 2 == 0 else "dangling") for k, n in enumerate(names)}))
+        jobs = jobs + link_jobs
+        results = results + l6.run_jobs(link_jobs)
         st_jobs = selftest_jobs()
         st_results = l6.run_jobs(st_jobs)
     wsets = model_write_sets(jobs, results) if jobs else []
